@@ -215,11 +215,27 @@ def rule_gc(A: Analysis, rep):
     gs = A.path_guards(g, body_entry, ap, fi)
     av = None
     need_ok = False
+    def member_key(atom):
+        """(key tuple, set name) of a `KEY in SET` atom whose key is a pair, written inline or held in a local."""
+        if not atom.startswith("in("):
+            return None
+        try:
+            call = ast.parse("IN" + atom[2:], mode="eval").body
+        except SyntaxError:
+            return None
+        if not (isinstance(call, ast.Call) and len(call.args) == 2 and isinstance(call.args[1], ast.Name)):
+            return None
+        key = call.args[0]
+        if isinstance(key, ast.Name):
+            key = A.single_def_value(fi, key.id)
+        if isinstance(key, ast.Tuple) and len(key.elts) == 2:
+            return key, call.args[1].id
+        return None
     for c in gs:
-        ins = [a for a, p in c if a.startswith("in((") and not p]
+        ins = [a for a, p in c if not p and member_key(a) is not None]
         if ins:
             av = ins[0]
-    need_ok = bool(gs) and all(("none(%s)" % mvar, False) in c and any(a.startswith("in((") and not p for a, p in c) for c in gs)
+    need_ok = bool(gs) and all(("none(%s)" % mvar, False) in c and any(not p and member_key(a) is not None for a, p in c) for c in gs)
     rep.check(need_ok, "GC1", "delete only unrecorded experiment directories", ap.ast,
               "a directory is a deletion candidate only if the experiment pattern matched and (identifier, timestamp) is not recorded",
               "to_delete.append reachable under [%s]" % " | ".join(fmt_conj(c) for c in gs))
@@ -227,8 +243,7 @@ def rule_gc(A: Analysis, rep):
     ok_set = False
     det = "membership test not found"
     if av:
-        inner_txt = av[len("in("):-1]
-        tup, setname = inner_txt.rsplit(",", 1)
+        tup, setname = member_key(av)
         sv = A.single_def_value(fi, setname)
         lst = None
         ctxv = [n_ for n_ in {x.id for x in ast.walk(fi.node) if isinstance(x, ast.Name)}
@@ -239,12 +254,12 @@ def rule_gc(A: Analysis, rep):
             lst = A.xtext(sv.generators[0].iter, fi, stop=stop)
             elt_ok = norm(sv.elt) == "(identifier, version.timestamp)" and norm(sv.generators[0].target) == "(identifier, version)"
             ok_set = lst.endswith(".version_index.get_all_versions()") and elt_ok
-        ident_v = tup.strip("()").split(",")[0].strip()
-        ts_v = tup.strip("()").split(",")[1].strip()
-        idv = A.single_def_value(fi, ident_v)
-        tsv = A.single_def_value(fi, ts_v)
-        ok_id = idv is not None and A.xtext(idv, fi, stop=stop) == "TaskIdentifier(%s.parent.relative_to(%s.output_path), %s.group('name'))" % (inner, ctxn, mvar)
-        ok_ts = tsv is not None and norm(tsv) == "int(%s.group('timestamp'))" % mvar
+        idv = A.single_def_value(fi, tup.elts[0].id) if isinstance(tup.elts[0], ast.Name) else tup.elts[0]
+        tsv = A.single_def_value(fi, tup.elts[1].id) if isinstance(tup.elts[1], ast.Name) else tup.elts[1]
+        outp = "%s.output_path" % ctxn
+        ok_id = idv is not None and A.xtext(idv, fi, stop=stop).replace(A.xtext(ast.parse(outp, mode="eval").body, fi, stop=stop), outp) == \
+            "TaskIdentifier(%s.parent.relative_to(%s.output_path), %s.group('name'))" % (inner, ctxn, mvar)
+        ok_ts = tsv is not None and A.xtext(tsv, fi, stop=stop) == "int(%s.group('timestamp'))" % mvar
         ok_set = ok_set and ok_id and ok_ts
         det = "set=%s identifier=%s timestamp=%s" % (lst, A.xtext(idv, fi, stop=stop) if idv is not None else None, norm(tsv) if tsv is not None else None)
     rep.check(ok_set, "GC1", "recorded set = all versions; identifier rebuilt from the directory", ap.ast, "", det)
@@ -362,7 +377,7 @@ def rule_cwd(A: Analysis, rep):
             rets = [n for n in g.nodes if n.kind == "stmt" and isinstance(n.ast, ast.Return) and n.ast.value is not None]
             rv = [cv for r_ in rets for cv in A.rvalues(fc, r_.ast.value, r_, g, depth=3)]
             hit_atom = A.atom(t_.ast, fc)[0]
-            ret_ok = bool(rv) and all(v == "cls(project_root=%s)" % p and (hit_atom, True) in c for c, v in rv)
+            ret_ok = bool(rv) and all(v == "cls(%s)" % p and (hit_atom, True) in c for c, v in rv)
             ok_body = hit_leaves and miss_continues and ret_ok
             # exhausting the candidates ends in MissingProjectRoot (the only feasible continuation: see ret_ok)
             ex_succ = [m for (m, lb) in hdr.succ if branch_of(lb) == "F" or lb == "F"]
